@@ -143,8 +143,8 @@ def harnesses(tier):
     assume = ['pre-state: >=1 live synchronized client tracked (with no synchronized consumer at all an ephemeral listener legitimately lets the publisher run)',
               'both runs of the self-composition see the same clock value']
     hs = [
-        Harness('c05.send_noninterference', noninterference(2, 1 if q else 2), twin=noninterference(1, 1, planted=True),
-                bounds={'clients': '1-2 sync + 0-1 ephemeral in table, all fields symbolic', 'sync requests': '<=2', 'ephemeral requests': '<=1' if q else '<=2',
+        Harness('c05.send_noninterference', noninterference(2, 1), twin=noninterference(1, 1, planted=True),
+                bounds={'clients': '1-2 sync + 0-1 ephemeral in table, all fields symbolic', 'sync requests': '<=2', 'ephemeral requests': '<=1',
                         'ephemeral kinds': 'request / new / CLOSE from known or unknown ephemeral client, ids unbounded', 'interleaving position': 'symbolic'},
                 functions=fn, stubs=stubs, assumptions=assume, budget_s=1200),
         Harness('c05.recv_mixed', recv_mixed(2, 12 if q else 14, 1, forms=[FORMS[0][:1], FORMS[1][:3]] if q else FORMS), twin=recv_mixed(2, 12, 1, planted=True),
@@ -152,6 +152,9 @@ def harnesses(tier):
                 functions=fn, stubs=stubs, assumptions=['per-connection FIFO'], budget_s=1200),
         Harness('c05.eph2_silent', eph2_silent, bounds={'publishes': 2, 'polls': 8}, functions=fn, stubs=stubs, assumptions=[], budget_s=120),
     ]
+    if not q:
+        hs.insert(1, Harness('c05.send_noninterference.2eph', noninterference(1, 2), bounds={'clients': '1-2 sync + 0-1 ephemeral in table', 'sync requests': '<=1', 'ephemeral requests': '<=2'},
+                             functions=fn, stubs=stubs, assumptions=assume, budget_s=1800))
     from props import s_level as SL
     tw = SL.c05_ephemeral(2, {}, {'pB': 0}, planted=True)
     hs.append(SL.H('c05.S.stalled_listener', SL.c05_ephemeral(3, {'pB': (0, 300)}, {'sE': 0}, mode='stall', eph='?'), twin=tw,
